@@ -85,11 +85,12 @@ def parse_url(url: str) -> ParsedURL:
     # Normalize path (default to '/')
     path = parsed.path if parsed.path else "/"
 
-    # Construct normalized URL
+    # Construct normalized URL (IPv6 literals keep their brackets in the authority)
+    host = f"[{parsed.hostname}]" if ":" in parsed.hostname else parsed.hostname
     normalized = urlunsplit(
         (
             "gemini",  # Always use 'gemini' scheme
-            f"{parsed.hostname}:{port}" if port != DEFAULT_PORT else parsed.hostname,
+            f"{host}:{port}" if port != DEFAULT_PORT else host,
             path,
             parsed.query,
             parsed.fragment,
